@@ -441,7 +441,7 @@ def run(ctx):
         "the models are hand-written; agreement with the code is checked on the generated cases of this run, proved only for the model",
         "strings are interned as numbers (order preserving for segment names)",
         "binary files that store one pair twice with different values are outside the symmetric-lookup theorem (pair_consistent); the model still predicts the implementation on them",
-        "association / polar parameters of group-contribution records are modelled only through the 'at most one polar segment' check",
+        "association parameters of group-contribution records are modelled only through the 'at most one polar segment' check; dipole moments: heterosegmented rule modelled, homosegmented mu/q compared by the comparator",
         "sigma is compared through sigma^3 (cbrt is not rational)",
     ])
 
